@@ -21,7 +21,8 @@
 (* strings only (the runner turns the TLC dump into JSON textually).       *)
 (*                                                                         *)
 (* Two places where the code as built departs from the property statement  *)
-(* are switchable (see KeepADOnStrippedFallback, ZeroNegTtlIgnored):       *)
+(* are switchable (see KeepADOnStrippedFallback, ZeroNegTtlIgnored; both   *)
+(* repaired since, as is the third switch AllBadNetsOpen):                  *)
 (* FALSE/FALSE is the behaviour the property asks for and is what the      *)
 (* invariants are checked against; TRUE/TRUE is the prediction used for    *)
 (* drift accounting against the real code.                                 *)
@@ -53,7 +54,9 @@ CONSTANTS
   PtrKinds,     \* ip6.arpa name classes for PTR queries
   PtrLookups,   \* outcomes of the in-addr.arpa chase
   KeepADOnStrippedFallback,  \* as built: the AAAA-stripped copy keeps AD when the A lookup is unusable
-  ZeroNegTtlIgnored          \* as built: SOA TTL 0 counts as "no SOA" (600 s ceiling); MINIMUM 0 is ignored
+  ZeroNegTtlIgnored,         \* as built: SOA TTL 0 counts as "no SOA" (600 s ceiling); MINIMUM 0 is ignored
+  AllBadNetsOpen             \* as built before the repair: a client_networks list whose every entry is unusable
+                             \* compiled to the empty list, and the empty list means "every client"
 
 NoSOACeiling == 600          \* noSOATTLCeiling
 
@@ -69,10 +72,18 @@ Queries ==
      rd \in 0..1, cd \in 0..1, ed \in {<<0, 0>>, <<1, 0>>, <<1, 1>>}, ad \in AdQSet,
      qc \in {"IN", "CH"},
      qt \in ({<<"AAAA", "na">>, <<"OTHER", "na">>} \cup {<<"PTR", k>> : k \in PtrKinds}),
-     el \in 0..1, zn \in 0..1, int \in 0..1}
+     el \in 0..2, zn \in 0..1, int \in 0..1}
+
+(* elig: what the configured client_networks make of this client.
+     1  eligible: no list is configured ("every client") or the source lies in a listed network
+     0  not eligible: a list is configured and the source lies in none of its networks
+     2  not eligible either, by another route: a list IS configured but none of its entries is a usable CIDR
+        (a typo), so no source lies "in one of the listed CIDRs" (config.DNS64Config.ClientNetworks' wording).
+        compile() drops the unusable entries; clientEligible must still know that a restriction was asked for. *)
+Eligible(q) == q.elig = 1 \/ (q.elig = 2 /\ AllBadNetsOpen)
 
 (* DNS64.ServeDNS gates, in the code's order *)
-GatePass(q) == q.qclass = "IN" /\ q.internal = 0 /\ q.rd = 1 /\ q.cd = 0 /\ q.elig = 1
+GatePass(q) == q.qclass = "IN" /\ q.internal = 0 /\ q.rd = 1 /\ q.cd = 0 /\ Eligible(q)
 Wrapped(q) == GatePass(q) /\ q.qtype = "AAAA" /\ q.zone = 0
 (* handlePTR: the name decodes to an address under a configured prefix, with
    u and suffix zero, whose IPv4 is not excluded under the well-known prefix.
@@ -303,5 +314,5 @@ GatesPassThrough ==
   (Done /\ ~Wrapped(q) /\ ~PtrTranslated(q, cfg)) => (out.kind = "pass" /\ out.alook = 0)
 
 (* PTR translation only behind the same flag/client gates *)
-PtrOnlyWhenAllowed == (Done /\ out.kind = "ptr") => (GatePass(q) /\ q.qtype = "PTR")
+PtrOnlyWhenAllowed == (Done /\ out.kind = "ptr") => (GatePass(q) /\ q.elig = 1 /\ q.qtype = "PTR")
 =============================================================================
